@@ -9,6 +9,9 @@ use ethercrab::{Command, MainDevice, SubDeviceGroup, SubDeviceGroupHandle};
 use serde_json::json;
 use std::future::Future;
 use std::pin::Pin;
+use std::sync::Arc;
+use std::sync::atomic::{AtomicBool, AtomicU64, AtomicUsize, Ordering};
+use std::task::{Context, Poll, Wake, Waker};
 use vh::prng::{Rng, fnv, fnv_mix};
 use vh::shard::{Args, Shard, hex};
 use vh::sim::desc::*;
@@ -20,11 +23,56 @@ struct Groups {
     g: [SubDeviceGroup<8, 256>; 3],
 }
 
+/// How the task set is executed.
+#[derive(Clone, Copy, PartialEq, Eq, Debug)]
+enum Mode {
+    /// each task alone, to completion (the sequential oracle)
+    Alone,
+    /// cooperative interleaving by the seeded executor at every await
+    Interleaved,
+    /// one OS thread per task + the network on a further thread: real parallelism on one
+    /// `MainDevice` (run under ThreadSanitizer / Miri; timeouts are effectively infinite so that a
+    /// descheduled thread cannot turn into a spurious `Timeout`)
+    Threads,
+}
+
+struct Unpark(std::thread::Thread);
+impl Wake for Unpark {
+    fn wake(self: Arc<Self>) {
+        self.0.unpark();
+    }
+}
+
+static HOOK_HITS: AtomicU64 = AtomicU64::new(0);
+thread_local! {
+    static YIELD_RNG: std::cell::Cell<u64> = const { std::cell::Cell::new(0x9E3779B97F4A7C15) };
+}
+
+/// cfg-gated PDU-loop hooks: in thread mode they only widen windows with random yields.
+fn yield_hook(_site: ethercrab::verif::Site, _addr: usize, _a: u8, _b: u8) {
+    HOOK_HITS.fetch_add(1, Ordering::Relaxed);
+    let r = YIELD_RNG.with(|c| {
+        let mut x = c.get();
+        x ^= x << 13;
+        x ^= x >> 7;
+        x ^= x << 17;
+        c.set(x);
+        x
+    });
+    if r % 8 == 0 {
+        std::thread::yield_now();
+    }
+}
+
 fn main() {
     let args = Args::parse();
     let mut sh = Shard::new("C20", &args);
+    let threads = args.extra_u64("threads", 0) == 1;
+    if threads {
+        ethercrab::verif::set_hook(Some(yield_hook));
+    }
     std::panic::set_hook(Box::new(|i| { if std::env::var("VH_PANICS").is_ok() { eprintln!("{i}"); } }));
-    let n = args.cases(480, 48_000);
+    let n = if threads { args.cases(320, 6_400) } else { args.cases(480, 48_000) };
     for i in 0..n {
         let case = args.case_id(i);
         if let Some(only) = args.only_case {
@@ -33,7 +81,10 @@ fn main() {
             }
         }
         let mut rng = args.rng().fork(case ^ 0xC20);
-        run_case(&mut sh, case, &mut rng);
+        run_case(&mut sh, case, &mut rng, threads);
+    }
+    if threads {
+        sh.add("threads.hook_hits", HOOK_HITS.load(Ordering::Relaxed));
     }
     sh.finish();
 }
@@ -74,11 +125,21 @@ fn build_net(descs: &[DeviceDesc], data_seed: u64) -> Net {
     net
 }
 
-fn run_scenario<const N: usize>(descs: &[DeviceDesc], k: usize, tasks: &[Task], seed: u64, data_seed: u64, interleaved: bool, latency: (u64, u64)) -> Result<(Vec<Trace>, Vec<String>, u64), String> {
+fn run_scenario<const N: usize>(descs: &[DeviceDesc], k: usize, tasks: &[Task], seed: u64, data_seed: u64, mode: Mode, latency: (u64, u64)) -> Result<(Vec<Trace>, Vec<String>, u64), String> {
     let net = build_net(descs, data_seed);
     let n = descs.len();
     let tasks = tasks.to_vec();
-    with_sim_n::<N, _>(net, seed, &MdCfg { dc_static_sync_iterations: 0, ..Default::default() }, |md: &MainDevice, sim: &mut Sim| {
+    let mut cfg = MdCfg { dc_static_sync_iterations: 0, ..Default::default() };
+    if mode == Mode::Threads {
+        // a descheduled OS thread must never look like a silent device
+        let long = std::time::Duration::from_secs(1_000_000);
+        cfg.timeouts.pdu = long;
+        cfg.timeouts.state_transition = long;
+        cfg.timeouts.mailbox_echo = long;
+        cfg.timeouts.mailbox_response = long;
+        cfg.timeouts.eeprom = long;
+    }
+    with_sim_n::<N, _>(net, seed, &cfg, |md: &MainDevice, sim: &mut Sim| {
         let mut counter = 0usize;
         let groups = match sim.run(md.init::<8, _>(|| 0, Groups::default(), |g: &Groups, _sd| {
             let i = counter % k;
@@ -104,7 +165,7 @@ fn run_scenario<const N: usize>(descs: &[DeviceDesc], k: usize, tasks: &[Task], 
         sim.latency_us = latency;
         sim.reorder = true;
         let frames0 = sim.frames_tx;
-        let mut futs: Vec<Pin<Box<dyn Future<Output = Trace> + '_>>> = vec![];
+        let mut futs: Vec<Pin<Box<dyn Future<Output = Trace> + Send + '_>>> = vec![];
         for (ti, t) in tasks.iter().enumerate() {
             match t.clone() {
                 Task::Cycle { group, n } => {
@@ -181,11 +242,58 @@ fn run_scenario<const N: usize>(descs: &[DeviceDesc], k: usize, tasks: &[Task], 
                 }
             }
         }
-        let traces: Vec<Trace> = if interleaved {
+        let traces: Vec<Trace> = if mode == Mode::Interleaved {
+            let futs = futs.into_iter().map(|f| f as Pin<Box<dyn Future<Output = Trace> + '_>>).collect();
             match sim.run_many(futs) {
                 Ok(t) => t,
                 Err(s) => return Err(format!("interleaved run: {s:?}")),
             }
+        } else if mode == Mode::Threads {
+            let live = AtomicUsize::new(futs.len());
+            let abort = AtomicBool::new(false);
+            let out: Vec<Option<Trace>> = std::thread::scope(|s| {
+                let handles: Vec<_> = futs
+                    .into_iter()
+                    .map(|mut f| {
+                        let (live, abort) = (&live, &abort);
+                        s.spawn(move || {
+                            let waker = Waker::from(Arc::new(Unpark(std::thread::current())));
+                            let mut cx = Context::from_waker(&waker);
+                            let r = loop {
+                                if let Poll::Ready(v) = f.as_mut().poll(&mut cx) {
+                                    break Some(v);
+                                }
+                                if abort.load(Ordering::Acquire) {
+                                    break None;
+                                }
+                                std::thread::park_timeout(std::time::Duration::from_micros(200));
+                            };
+                            live.fetch_sub(1, Ordering::AcqRel);
+                            r
+                        })
+                    })
+                    .collect();
+                // this thread is the network (TX + simulated segment + RX) and the clock
+                let t0 = std::time::Instant::now();
+                let mut idle = 0u64;
+                while live.load(Ordering::Acquire) > 0 {
+                    if sim.pump() {
+                        idle = 0;
+                    } else {
+                        idle += 1;
+                        vh::vclock::advance_by(20);
+                        std::thread::yield_now();
+                    }
+                    if idle % 4096 == 4095 && t0.elapsed().as_secs() > 600 {
+                        abort.store(true, Ordering::Release);
+                    }
+                }
+                handles.into_iter().map(|h| h.join().ok().flatten()).collect()
+            });
+            if out.iter().any(|o| o.is_none()) {
+                return Err("WATCHDOG: threaded run did not finish within 600 s of wall clock (or a task panicked)".into());
+            }
+            out.into_iter().map(|o| o.unwrap()).collect()
         } else {
             let mut out = vec![];
             for mut f in futs {
@@ -214,7 +322,7 @@ fn run_scenario<const N: usize>(descs: &[DeviceDesc], k: usize, tasks: &[Task], 
     })
 }
 
-fn run_case(sh: &mut Shard, case: u64, rng: &mut Rng) {
+fn run_case(sh: &mut Shard, case: u64, rng: &mut Rng, threads: bool) {
     let n = 2 + rng.usize_below(7);
     let k = 2 + rng.usize_below(2);
     let descs: Vec<DeviceDesc> = (0..n).map(|_| device(rng)).collect();
@@ -255,15 +363,26 @@ fn run_case(sh: &mut Shard, case: u64, rng: &mut Rng) {
     sh.case(Some(fnv_mix(fnv(scenario.to_string().as_bytes()), case)));
     sh.count(&format!("tasks.{nt}"));
     sh.count(&format!("slots.{slots}"));
-    let run = |inter: bool| {
-        let r = std::panic::catch_unwind(std::panic::AssertUnwindSafe(|| if slots == 8 { run_scenario::<8>(&descs, k, &tasks, seed, data_seed, inter, latency) } else { run_scenario::<16>(&descs, k, &tasks, seed, data_seed, inter, latency) }));
+    let run = |mode: Mode| {
+        let r = std::panic::catch_unwind(std::panic::AssertUnwindSafe(|| if slots == 8 { run_scenario::<8>(&descs, k, &tasks, seed, data_seed, mode, latency) } else { run_scenario::<16>(&descs, k, &tasks, seed, data_seed, mode, latency) }));
         match r {
             Err(p) => Err(format!("PANIC:{}", p.downcast_ref::<String>().cloned().or_else(|| p.downcast_ref::<&str>().map(|s| s.to_string())).unwrap_or_default())),
             Ok(x) => x,
         }
     };
-    let alone = run(false);
-    let together = run(true);
+    let alone = run(Mode::Alone);
+    let together = run(if threads { Mode::Threads } else { Mode::Interleaved });
+    if threads {
+        sh.count("threads.cases");
+        sh.add("threads.os_threads", nt as u64 + 1);
+        if let Err(e) = &together {
+            if e.starts_with("WATCHDOG") {
+                sh.observe("threads.watchdog", e.clone());
+                sh.inconclusive = Some(e.clone());
+                return;
+            }
+        }
+    }
     match (alone, together) {
         (Err(e), _) => sh.violation(&format!("C20:sequential-run-failed:{}", e.split(':').next().unwrap_or("")), e, scenario.clone()),
         (_, Err(e)) => sh.violation(&format!("C20:interleaved-run-failed:{}", e.split(':').next().unwrap_or("")), e, scenario.clone()),
